@@ -7,6 +7,7 @@ import (
 	"bufio"
 	"bytes"
 	"context"
+	"crypto/tls"
 	"encoding/hex"
 	"fmt"
 	"io"
@@ -18,6 +19,7 @@ import (
 	"net/netip"
 	"net/url"
 	"os"
+	"regexp"
 	"runtime"
 	"sort"
 	"strings"
@@ -27,6 +29,7 @@ import (
 	"github.com/AdguardTeam/AdGuardDNS/internal/agdhttp"
 	"github.com/AdguardTeam/AdGuardDNS/internal/websvc"
 	"github.com/AdguardTeam/AdGuardDNS/verifh/hlib"
+	aglog "github.com/AdguardTeam/golibs/log"
 )
 
 // errColl is a silent error collector.
@@ -41,6 +44,12 @@ type seen struct {
 	Path   string
 	Host   string
 	Hdr    http.Header
+	// Trailer is what arrived after the body.
+	Trailer http.Header `json:",omitempty"`
+	// Tunnel marks a request the backend read from a connection after it had
+	// answered 101 Switching Protocols on it: bytes the client sent through
+	// the raw tunnel of httputil.ReverseProxy.
+	Tunnel bool `json:",omitempty"`
 }
 
 // view is what the handler under test was given (after net/http's parsing).
@@ -145,8 +154,31 @@ func newWorld() (w *world) {
 	w.backend = httptest.NewServer(http.HandlerFunc(func(rw http.ResponseWriter, r *http.Request) {
 		_, _ = io.Copy(io.Discard, r.Body)
 		w.mu.Lock()
-		w.recs = append(w.recs, seen{Method: r.Method, URI: r.RequestURI, Path: r.URL.Path, Host: r.Host, Hdr: r.Header.Clone()})
+		w.recs = append(w.recs, seen{Method: r.Method, URI: r.RequestURI, Path: r.URL.Path, Host: r.Host, Hdr: r.Header.Clone(),
+			Trailer: r.Trailer.Clone()})
 		w.mu.Unlock()
+		if up := r.Header.Get("Upgrade"); up != "" && asksUpgrade(r.Header) {
+			// A backend that honours protocol switches (WebSocket, h2c, …):
+			// it answers 101 and goes on reading from the same connection.
+			// What arrives there is recorded like any other request.
+			if hj, ok := rw.(http.Hijacker); ok {
+				conn, brw, err := hj.Hijack()
+				if err == nil {
+					_, _ = fmt.Fprintf(brw, "HTTP/1.1 101 Switching Protocols\r\nConnection: Upgrade\r\nUpgrade: %s\r\n\r\n", up)
+					_ = brw.Flush()
+					_ = conn.SetReadDeadline(time.Now().Add(2 * time.Second))
+					if r2, rerr := http.ReadRequest(brw.Reader); rerr == nil {
+						w.mu.Lock()
+						w.recs = append(w.recs, seen{Method: r2.Method, URI: r2.RequestURI, Path: r2.URL.Path, Host: r2.Host,
+							Hdr: r2.Header.Clone(), Tunnel: true})
+						w.mu.Unlock()
+					}
+					_ = conn.Close()
+
+					return
+				}
+			}
+		}
 		rw.Header().Set("Server", "backend")
 		if r.Header.Get(closeHdr) != "" {
 			// The backend closes the connection after this answer, so that the
@@ -227,6 +259,21 @@ type reqCase struct {
 	// InFlightWith describes the other requests that were in flight together
 	// with this one (interleaved and concurrent campaigns).
 	InFlightWith string `json:"in_flight_with,omitempty"`
+	// Host is the Host header when HostSet ("<none>": no Host header at all);
+	// otherwise link-ip.example.
+	Host    string `json:"host,omitempty"`
+	HostSet bool   `json:"host_set,omitempty"`
+	// Proto is the protocol version of the request line (default HTTP/1.1).
+	Proto string `json:"proto,omitempty"`
+	// Chunked sends the body with chunked transfer coding, followed by the
+	// trailer fields Trailers (announced in a Trailer header).
+	Chunked  bool    `json:"chunked,omitempty"`
+	Trailers []hdrKV `json:"trailers,omitempty"`
+	// TLS makes the in-process request look like one that arrived over TLS.
+	TLS bool `json:"tls,omitempty"`
+	// OddWire marks cases whose request line, Host or header syntax (not the
+	// request target) may make net/http refuse the request by itself.
+	OddWire bool `json:"odd_wire,omitempty"`
 }
 
 const caseHdr = "X-Verif-Case"
@@ -236,19 +283,47 @@ const closeHdr = "X-Verif-Close"
 
 func (c *reqCase) raw() []byte {
 	var b bytes.Buffer
-	fmt.Fprintf(&b, "%s %s HTTP/1.1\r\nHost: link-ip.example\r\n", c.Method, c.Target)
+	proto := c.Proto
+	if proto == "" {
+		proto = "HTTP/1.1"
+	}
+	fmt.Fprintf(&b, "%s %s %s\r\n", c.Method, c.Target, proto)
+	switch {
+	case !c.HostSet:
+		b.WriteString("Host: link-ip.example\r\n")
+	case c.Host != "<none>":
+		fmt.Fprintf(&b, "Host: %s\r\n", c.Host)
+	}
 	for _, kv := range c.Hdrs {
 		fmt.Fprintf(&b, "%s: %s\r\n", kv.K, kv.V)
 	}
 	if c.ID != 0 {
 		fmt.Fprintf(&b, "%s: %d\r\n", caseHdr, c.ID)
 	}
-	if c.Method == "POST" || c.Method == "PUT" || c.Method == "PATCH" {
-		fmt.Fprintf(&b, "Content-Length: %d\r\n", len(c.Body))
-	}
-	b.WriteString("\r\n")
-	if c.Method == "POST" || c.Method == "PUT" || c.Method == "PATCH" {
-		b.WriteString(c.Body)
+	hasBody := c.Method == "POST" || c.Method == "PUT" || c.Method == "PATCH"
+	switch {
+	case c.Chunked:
+		b.WriteString("Transfer-Encoding: chunked\r\n")
+		if len(c.Trailers) > 0 {
+			var names []string
+			for _, kv := range c.Trailers {
+				names = append(names, kv.K)
+			}
+			fmt.Fprintf(&b, "Trailer: %s\r\n", strings.Join(names, ", "))
+		}
+		b.WriteString("\r\n")
+		if c.Body != "" {
+			fmt.Fprintf(&b, "%x\r\n%s\r\n", len(c.Body), c.Body)
+		}
+		b.WriteString("0\r\n")
+		for _, kv := range c.Trailers {
+			fmt.Fprintf(&b, "%s: %s\r\n", kv.K, kv.V)
+		}
+		b.WriteString("\r\n")
+	case hasBody:
+		fmt.Fprintf(&b, "Content-Length: %d\r\n\r\n%s", len(c.Body), c.Body)
+	default:
+		b.WriteString("\r\n")
 	}
 
 	return b.Bytes()
@@ -257,6 +332,9 @@ func (c *reqCase) raw() []byte {
 func (c *reqCase) canon() string {
 	var b strings.Builder
 	fmt.Fprintf(&b, "%d|%v|%s|%s|%s", c.Stand, c.TCP, c.Method, c.Target, c.Remote)
+	if c.HostSet || c.Proto != "" || c.Chunked || c.TLS {
+		fmt.Fprintf(&b, "|host:%v:%s|%s|chunked:%v:%v|tls:%v", c.HostSet, c.Host, c.Proto, c.Chunked, c.Trailers, c.TLS)
+	}
 	if c.Body != "" {
 		fmt.Fprintf(&b, "|body:%s", c.Body)
 	}
@@ -303,9 +381,34 @@ func (w *world) run(c *reqCase) (o outcome) {
 		_, err = conn.Write(c.raw())
 		hlib.Must(err)
 		_ = conn.SetReadDeadline(time.Now().Add(10 * time.Second))
-		resp, err := http.ReadResponse(bufio.NewReader(conn), &http.Request{Method: c.Method})
+		br := bufio.NewReader(conn)
+		resp, err := http.ReadResponse(br, &http.Request{Method: c.Method})
+		for err == nil && resp.StatusCode >= 100 && resp.StatusCode < 200 && resp.StatusCode != http.StatusSwitchingProtocols {
+			// 100 Continue and other interim answers
+			resp, err = http.ReadResponse(br, &http.Request{Method: c.Method})
+		}
 		if err != nil {
 			o.ioErr = err
+		} else if resp.StatusCode == http.StatusSwitchingProtocols {
+			// The proxy has joined this connection and a backend connection:
+			// show what that means by sending a request no client may make.
+			o.status = resp.StatusCode
+			_, _ = fmt.Fprintf(conn, "POST /admin/link/victim-device HTTP/1.1\r\nHost: backend\r\nX-Connecting-Ip: 6.6.6.6\r\n"+
+				"%s: %d\r\nContent-Length: 0\r\n\r\n", caseHdr, c.ID)
+			for i := 0; i < 200; i++ {
+				w.mu.Lock()
+				n := 0
+				for _, rec := range w.recs {
+					if rec.Tunnel {
+						n++
+					}
+				}
+				w.mu.Unlock()
+				if n > 0 {
+					break
+				}
+				time.Sleep(10 * time.Millisecond)
+			}
 		} else {
 			b, _ := io.ReadAll(resp.Body)
 			_ = resp.Body.Close()
@@ -319,6 +422,9 @@ func (w *world) run(c *reqCase) (o outcome) {
 			return o
 		}
 		req.RemoteAddr = c.Remote
+		if c.TLS {
+			req.TLS = &tls.ConnectionState{Version: tls.VersionTLS13, HandshakeComplete: true, ServerName: "link-ip.example"}
+		}
 		rec := httptest.NewRecorder()
 		func() {
 			defer func() { o.panicked = recover() }()
@@ -330,7 +436,10 @@ func (w *world) run(c *reqCase) (o outcome) {
 	if len(vs) > 0 {
 		o.parsed, o.v = true, vs[0]
 	}
-	if svcView != nil && o.ioErr == nil {
+	if svcView != nil && o.ioErr == nil && !(c.OddWire && (o.status == 400 || o.status == 505)) {
+		// (The server refuses some requests that http.ReadRequest accepts - a
+		// malformed or missing Host, an unsupported version - with 400 or 505,
+		// which the handler never answers.)
 		o.parsed, o.v = true, *svcView
 	}
 	for _, rec := range w.takeRecs() {
@@ -387,7 +496,7 @@ var forwardingNames = []string{
 }
 
 var watched = append(append([]string{"X-Connecting-Ip", "X-Request-Id"}, forwardingNames...),
-	"User-Agent", "X-Custom", "X-Client-Ip")
+	"User-Agent", "X-Custom", "X-Client-Ip", "Connection", "Upgrade")
 
 func looksGeneratedID(v string) bool {
 	if len(v) != 22 {
@@ -432,7 +541,7 @@ func showHdrs(h http.Header) string {
 func (w *world) modelLine(c *reqCase, o outcome) string {
 	var b strings.Builder
 	v := o.v
-	if strings.HasPrefix(c.Target, "/") {
+	if simpleTarget(c.Method, c.Target) {
 		method, remote := c.Method, c.Remote
 		if o.parsed {
 			method, remote = v.Method, v.Remote
@@ -455,6 +564,25 @@ func (w *world) modelLine(c *reqCase, o outcome) string {
 	return b.String()
 }
 
+var (
+	reSchemeAuthority = regexp.MustCompile(`^[A-Za-z][A-Za-z0-9+.-]*://([^/]*)`)
+	reSimpleAuthority = regexp.MustCompile(`^[A-Za-z0-9.-]*(:[0-9]*)?$`)
+)
+
+// simpleTarget reports whether the model covers the request target as it is on
+// the wire: every form except an absolute URL whose authority has userinfo, a
+// bracketed IP literal, escapes or other characters with validation rules of
+// their own in net/url (for those the model is given the parsed path).
+func simpleTarget(method, target string) bool {
+	t := target
+	if method == "CONNECT" && !strings.HasPrefix(t, "/") {
+		t = "http://" + t
+	}
+	m := reSchemeAuthority.FindStringSubmatch(t)
+
+	return m == nil || reSimpleAuthority.MatchString(m[1])
+}
+
 const robotsBody = agdhttp.RobotsDisallowAll
 
 // isRobots reports whether the answer is the robots file (a HEAD answer over
@@ -469,6 +597,9 @@ func realLine(o outcome) string {
 		return "proxy " + hx(o.recs[0].Path) + " " + showHdrs(o.recs[0].Hdr)
 	case o.status == 404:
 		return "404"
+	case o.status == 200 && o.body == "" && o.v.Method != "HEAD":
+		// The error handler of linkedIPHandler writes nothing.
+		return "proxy-error"
 	case isRobots(o):
 		return "robots"
 	case o.status == 500:
@@ -605,6 +736,15 @@ func (w *world) oracle(r *hlib.Result, c *reqCase, o outcome) {
 		case o.status == 404:
 		case isRobots(o) && o.v.Path == "/robots.txt":
 		case o.status == 500 && c.BadRem:
+		case o.status == 200 && o.body == "" && unprintableUpgrade(o.v.Hdr) &&
+			documentedShape(o.v.Method, "/"+strings.TrimPrefix(o.v.Path, "/")):
+			// An API request that httputil.ReverseProxy refuses by itself (the
+			// client asks to switch to a protocol with an unprintable name):
+			// the error handler of linkedIPHandler writes nothing.  Not one of
+			// the "everything else" requests that must get 404.
+			r.Count("req.api-shaped.refused-by-reverse-proxy")
+		case o.status == http.StatusSwitchingProtocols:
+			r.Violate("protocol-switch-tunnel", fmt.Sprintf("client got 101 Switching Protocols for %s %q", o.v.Method, o.v.Path), replay)
 		default:
 			r.Violate("local-answer-not-404", fmt.Sprintf("request %s %q not forwarded but answered %d %q", o.v.Method, o.v.Path, o.status, o.body), replay)
 		}
@@ -624,6 +764,30 @@ func (w *world) oracle(r *hlib.Result, c *reqCase, o outcome) {
 	b := o.recs[0]
 	st := w.stands[c.Stand]
 	base := strings.TrimSuffix(st.base, "/")
+	if b.Tunnel {
+		r.Violate("protocol-switch-tunnel", fmt.Sprintf("the backend accepted the protocol switch that was forwarded to it and then received, "+
+			"on the same connection, %s %q with X-Connecting-IP = %q from the client (peer %s): neither an API request nor the peer's address",
+			b.Method, b.Path, b.Hdr["X-Connecting-Ip"], c.WantIP), replay)
+
+		return
+	}
+	if asksUpgrade(b.Hdr) || len(b.Hdr["Upgrade"]) > 0 {
+		r.Violate("protocol-switch-forwarded", fmt.Sprintf("forwarded request asks the backend to switch protocols (Connection: %q, Upgrade: %q); "+
+			"on a 101 answer httputil.ReverseProxy joins client and backend with a raw tunnel", b.Hdr["Connection"], b.Hdr["Upgrade"]), replay)
+	}
+	if o.status == http.StatusSwitchingProtocols {
+		r.Violate("protocol-switch-tunnel", fmt.Sprintf("client got 101 Switching Protocols for %s %q", o.v.Method, o.v.Path), replay)
+	}
+	for n, vs := range b.Trailer {
+		if len(vs) == 0 {
+			continue
+		}
+		for _, f := range append([]string{"X-Connecting-Ip"}, forwardingNames...) {
+			if strings.EqualFold(n, f) {
+				r.Violate("forged-forwarding-trailer-forwarded:"+f, fmt.Sprintf("client-supplied trailer field %s: %q reached the backend", n, vs), replay)
+			}
+		}
+	}
 	if !strings.HasPrefix(b.Path, base+"/") {
 		r.Violate("forwarded-path-escapes-prefix:base", fmt.Sprintf("backend path %q not under the target path %q", b.Path, st.base), replay)
 
@@ -690,6 +854,36 @@ func (w *world) oracle(r *hlib.Result, c *reqCase, o outcome) {
 	}
 }
 
+// asksUpgrade reports whether some Connection value lists the token
+// "upgrade" (own reading of RFC 9110 section 7.6.1 / 7.8: comma-separated,
+// optional whitespace, case-insensitive).
+func asksUpgrade(h http.Header) bool {
+	for _, v := range h["Connection"] {
+		for _, tok := range strings.Split(v, ",") {
+			if strings.EqualFold(strings.Trim(tok, " \t"), "upgrade") {
+				return true
+			}
+		}
+	}
+
+	return false
+}
+
+// unprintableUpgrade reports whether the request asks for a switch to a
+// protocol whose name has a byte outside printable ASCII.
+func unprintableUpgrade(h http.Header) bool {
+	if !asksUpgrade(h) {
+		return false
+	}
+	for _, c := range []byte(h.Get("Upgrade")) {
+		if c < 0x20 || c > 0x7e {
+			return true
+		}
+	}
+
+	return false
+}
+
 // ----- generators -----
 
 var methods = []string{"GET", "POST"}
@@ -700,7 +894,11 @@ var firstSegs = []string{"linkip", "ddns", "linkip", "ddns", "Linkip", "LINKIP",
 
 var segs = []string{"dev1234", "0123456789", "a", "b", "example.com", "status", "", ".", "..", "%2e", "%2e%2e", ".%2E",
 	"%2E%2E", "...", "a%2Fb", "%2F", "..%2F", "%2F..", "a%20b", "x.y", "~", "a;b", "a%3Fb", "status%2F..", "%2e%2e%2fstatus",
-	"..;", ". ", "%00", "\\..", "%5c..", "linkip", "ddns"}
+	"..;", ". ", "%00", "\\..", "%5c..", "linkip", "ddns",
+	// escapes of escapes (a second decoding would turn them into dot segments
+	// or slashes), overlong and raw non-ASCII bytes
+	"%252e%252e", "%252E", "%252e", "a%252Fb", "%252F..", "..%252F", "%25%32%65%25%32%65", "%2%32e", "%c0%ae%c0%ae", "%C0%AE",
+	"\xc0\xae\xc0\xae", "%ff", "\xe9", "%e2%80%ae", "%2e%252e", "status%252F..", "%u002e%u002e"}
 
 func pick(rng *rand.Rand, xs []string) string { return xs[rng.IntN(len(xs))] }
 
@@ -718,7 +916,8 @@ func nearMiss(kw string, raw bool) (out []string) {
 		kw[:len(kw)-1] + strings.ToUpper(kw[len(kw)-1:]), kw + kw, kw + ".", "." + kw, kw + "-", kw + "_", kw + "1"}
 	if raw {
 		out = append(out, kw+"%20", "%20"+kw, kw+"%00", kw+"%09", kw+"%2F", kw+"%2Fx", "x%2F"+kw, kw+";x", kw+"%3F",
-			fmt.Sprintf("%%%02x", kw[0])+kw[1:])
+			fmt.Sprintf("%%%02x", kw[0])+kw[1:], fmt.Sprintf("%%25%02x", kw[0])+kw[1:], kw+"%252Fx", kw+"\xc2\xa0",
+			strings.Replace(kw, "k", "\xe2\x84\xaa", 1), strings.Replace(kw, "s", "\xc5\xbf", 1))
 	}
 
 	return out
@@ -746,6 +945,22 @@ func init() {
 }
 
 var statusNear, robotsNear []string
+
+// idParamNames are parameter names under which dynamic-DNS and "what is my
+// IP" APIs commonly accept an address from the client (query string or form
+// body).  The proxy must take the address from the connection only.
+var idParamNames = []string{"ip", "myip", "myipv6", "ipv4", "ipv6", "address", "addr", "client_ip", "clientip", "remote_addr",
+	"remote", "real_ip", "x-connecting-ip", "X-Connecting-Ip", "x_connecting_ip", "x-real-ip", "x-forwarded-for", "forwarded",
+	"hostname", "host", "device_id", "linked_ip", "connecting_ip"}
+
+func idParams(rng *rand.Rand) string {
+	var ps []string
+	for k := 1 + rng.IntN(3); k > 0; k-- {
+		ps = append(ps, pick(rng, idParamNames)+"="+pick(rng, []string{"6.6.6.6", "2001:db8::6", "6.6.6.6%2C1.1.1.1", ""}))
+	}
+
+	return strings.Join(ps, pick(rng, []string{"&", "&", ";"}))
+}
 
 func genTarget(rng *rand.Rand) (method, target string) {
 	method = pick(rng, methods)
@@ -809,14 +1024,17 @@ func genTarget(rng *rand.Rand) (method, target string) {
 	case 0:
 		lead = "//"
 	case 1:
-		lead = "http://evil.example/"
+		lead = pick(rng, []string{"http://evil.example/", "http://evil.example/", "HTTP://h:80/", "https://a.b-c.d:/", "x-1+y.z://h/", "http:///",
+			"http:/", "http:", "http://h", "http://u:p@h/", "http://[::1]:80/", "http://h%41/", "1http://h/", "://h/", "ws://h:8/", "http://h:x/"})
 	case 2:
 		lead = "/./"
 	case 3:
 		lead = "/../"
 	}
 	target = lead + strings.Join(parts, "/")
-	switch rng.IntN(12) {
+	switch rng.IntN(14) {
+	case 12, 13:
+		target += "?" + idParams(rng)
 	case 0:
 		target += "/"
 	case 1:
@@ -833,13 +1051,19 @@ func genTarget(rng *rand.Rand) (method, target string) {
 var hdrNames = []string{"X-Connecting-IP", "x-connecting-ip", "X-CONNECTING-IP", "CF-Connecting-IP", "cf-connecting-ip",
 	"Forwarded", "forwarded", "True-Client-IP", "true-client-ip", "X-Real-IP", "x-real-ip", "X-Forwarded-For",
 	"x-forwarded-for", "X-Forwarded-Host", "X-Forwarded-Proto", "X-Request-ID", "x-request-id", "X-Custom", "X-Client-IP",
-	"User-Agent", "X_Connecting_IP", "Keep-Alive", "Proxy-Connection"}
+	"User-Agent", "X_Connecting_IP", "Keep-Alive", "Proxy-Connection",
+	// headers a handler could (wrongly) take as a sign of a trusted caller, and the protocol switch
+	"Upgrade", "upgrade", "HTTP2-Settings", "Origin", "Referer", "Authorization", "Admin-Token", "Cookie", "Via",
+	"X-Proxy-Target", "X-Requested-With", "Te", "Sec-WebSocket-Key"}
 
 var hdrVals = []string{"6.6.6.6", "for=6.6.6.6;proto=https", "", "evil.example", "https", "1.1.1.1, 2.2.2.2", "::1",
-	"10.0.0.1", "ID", "timeout=5"}
+	"10.0.0.1", "ID", "timeout=5", "websocket", "h2c", "WebSocket, h2c", "a\tb", "w\xe9b", "trailers", "127.0.0.1",
+	"1.1.1.1\r\n 6.6.6.6", "\t6.6.6.6\t", "<backend>", "http://<backend>/", "1.1 <backend>", "Basic YWRtaW46YWRtaW4=",
+	"AAMAAABkAARAAAAAAAIAAAAA"}
 
 var connTokens = []string{"close", "keep-alive", "X-Connecting-IP", "x-connecting-ip", "X-Request-ID", "X-Custom",
-	"x-real-ip", "User-Agent", "", " ", "X-Forwarded-For", "upgrade", "Connection", "x_connecting_ip", "X-Client-IP", "b@d"}
+	"x-real-ip", "User-Agent", "", " ", "X-Forwarded-For", "upgrade", "Connection", "x_connecting_ip", "X-Client-IP", "b@d",
+	"Upgrade", "UPGRADE", "\tupgrade\t", "HTTP2-Settings", "upgrade;x", "upgradex", "Te"}
 
 func genHdrs(rng *rand.Rand) (hs []hdrKV) {
 	n := 0
@@ -863,9 +1087,87 @@ func genHdrs(rng *rand.Rand) (hs []hdrKV) {
 			hs = append(hs, hdrKV{K: pick(rng, []string{"Connection", "connection"}), V: strings.TrimSpace(strings.Join(toks, sep))})
 		}
 	}
+	if rng.IntN(12) == 0 {
+		// a protocol switch, well formed or nearly so
+		hs = append(hs, hdrKV{K: pick(rng, []string{"Connection", "connection"}),
+			V: pick(rng, []string{"Upgrade", "upgrade", "keep-alive, Upgrade", "Upgrade, HTTP2-Settings", "close,upgrade", "UPGRADE , x-connecting-ip"})})
+		if rng.IntN(6) != 0 {
+			hs = append(hs, hdrKV{K: pick(rng, []string{"Upgrade", "upgrade"}),
+				V: pick(rng, []string{"websocket", "h2c", "WebSocket", "TLS/1.0, HTTP/1.1", "a\tb", "w\xe9b", "", "x"})})
+		}
+	}
 	rng.Shuffle(len(hs), func(i, j int) { hs[i], hs[j] = hs[j], hs[i] })
 
 	return hs
+}
+
+// hostVals are Host header values besides the default one; "<backend>" and
+// "<self>" stand for the addresses of the recording backend and of the stand.
+var hostVals = []string{"<backend>", "<backend>", "<self>", "localhost", "127.0.0.1", "", "<none>", "evil.example", "[::1]:80",
+	"LINK-IP.example", "link-ip.example:80", "link-ip.example.", "a b", "api.internal"}
+
+var trailerNames = []string{"X-Connecting-IP", "X-Real-IP", "CF-Connecting-IP", "True-Client-IP", "Forwarded", "X-Forwarded-For",
+	"X-Custom", "x-connecting-ip"}
+
+// wireVariation changes the parts of the request around target and headers
+// that the handler must not care about: Host, protocol version, the framing of
+// the body, trailer fields, TLS.
+func (w *world) wireVariation(rng *rand.Rand, c *reqCase) {
+	st := w.stands[c.Stand]
+	backendHost := strings.TrimPrefix(w.backend.URL, "http://")
+	subst := func(v string) string {
+		v = strings.ReplaceAll(v, "<backend>", backendHost)
+
+		return strings.ReplaceAll(v, "<self>", st.tcpAddr)
+	}
+	for i := range c.Hdrs {
+		c.Hdrs[i].V = subst(c.Hdrs[i].V)
+	}
+	if strings.HasPrefix(c.Target, "http://evil.example") && rng.IntN(2) == 0 {
+		c.Target = "http://" + backendHost + strings.TrimPrefix(c.Target, "http://evil.example")
+	}
+	if rng.IntN(5) == 0 {
+		c.HostSet, c.Host = true, subst(pick(rng, hostVals))
+		if c.Host == "a b" || c.Host == "<none>" || c.Host == "" {
+			c.OddWire = true
+		}
+	}
+	switch rng.IntN(14) {
+	case 0, 1:
+		c.Proto = "HTTP/1.0"
+		if rng.IntN(2) == 0 {
+			c.HostSet, c.Host = true, "<none>"
+		}
+	case 2:
+		c.Proto, c.OddWire = pick(rng, []string{"HTTP/1.2", "HTTP/2.0", "HTTP/0.9", "HTTP/1.10", "http/1.1"}), true
+	}
+	if rng.IntN(8) == 0 {
+		c.Chunked = true
+		c.Body = pick(rng, []string{"", "abc", "x=1&y=2"})
+		for k := rng.IntN(4); k > 0; k-- {
+			c.Trailers = append(c.Trailers, hdrKV{K: pick(rng, trailerNames), V: pick(rng, []string{"6.6.6.6", "for=6.6.6.6", "x"})})
+		}
+	} else if rng.IntN(8) == 0 && (c.Method == "POST" || c.Method == "PUT" || c.Method == "PATCH") {
+		c.Body = pick(rng, []string{"abc", "ip=6.6.6.6", strings.Repeat("z", 5000), idParams(rng), idParams(rng)})
+		if strings.Contains(c.Body, "=") {
+			c.Hdrs = append(c.Hdrs, hdrKV{K: "Content-Type", V: "application/x-www-form-urlencoded"})
+		}
+		if rng.IntN(3) == 0 {
+			c.Hdrs = append(c.Hdrs, hdrKV{K: "Expect", V: "100-continue"})
+			c.OddWire = true
+		}
+	}
+	if !c.TCP && rng.IntN(4) == 0 {
+		c.TLS = true
+	}
+	if c.Chunked && c.Proto != "" {
+		c.OddWire = true
+	}
+	for _, kv := range c.Hdrs {
+		if strings.ContainsAny(kv.V, "\t\r") || strings.ContainsAny(kv.K, " ") {
+			c.OddWire = true
+		}
+	}
 }
 
 type remote struct {
@@ -880,6 +1182,14 @@ var remotes = []remote{
 	{"[2001:db8::1]:65535", "2001:db8::1", false},
 	{"[::1]:80", "::1", false},
 	{"[fe80::1%eth0]:443", "fe80::1%eth0", false},
+	{"[2001:db8::2]:65535", "2001:db8::2", false},
+	{"[2001:db8:1::1]:1", "2001:db8:1::1", false},
+	{"[fe80::2%eth0]:443", "fe80::2%eth0", false},
+	{"[fe80::1%eth1]:443", "fe80::1%eth1", false},
+	{"[::ffff:192.0.2.9]:80", "::ffff:192.0.2.9", false},
+	{"127.0.0.1:9", "127.0.0.1", false},
+	{"10.0.0.1:80", "10.0.0.1", false},
+	{"192.0.2.70:4711", "192.0.2.70", false},
 	{"198.51.100.1", "198.51.100.1", false}, // no port: used as it is
 	{"2001:db8::1:80", "", true},
 	{"[::1", "", true},
@@ -965,6 +1275,48 @@ func (w *world) classify(r *hlib.Result, c *reqCase, o outcome) (nontrivial bool
 			}
 		}
 	}
+	if o.parsed {
+		if c.HostSet {
+			r.Count("wire.host-varied")
+			if strings.HasPrefix(c.Host, "127.0.0.1:") {
+				r.Count("wire.host-is-backend-or-self")
+			}
+		}
+		if c.Proto == "HTTP/1.0" {
+			r.Count("wire.http/1.0")
+		}
+		if c.Chunked {
+			r.Count("wire.chunked-body")
+			if len(c.Trailers) > 0 {
+				r.Count("wire.trailer-fields")
+			}
+		}
+		if c.TLS {
+			r.Count("wire.tls-in-process")
+		}
+		if asksUpgrade(o.v.Hdr) {
+			r.Count("hdr.protocol-switch")
+			if len(o.recs) > 0 {
+				r.Count("req.forwarded.with-protocol-switch")
+			}
+		}
+		if i := strings.IndexByte(c.Target, '?'); i >= 0 && strings.Contains(c.Target[i:], "6.6.6.6") {
+			r.Count("query.address-parameter")
+		}
+		if strings.Contains(c.Body, "6.6.6.6") {
+			r.Count("body.address-parameter")
+		}
+		if strings.Contains(c.Target, "%25") {
+			r.Count("path.double-encoded")
+		}
+		for _, ch := range []byte(c.Target) {
+			if ch >= 0x80 {
+				r.Count("path.non-ascii-byte")
+
+				break
+			}
+		}
+	}
 	if c.TCP {
 		r.Count("mode.tcp")
 	} else {
@@ -990,7 +1342,19 @@ func (w *world) flush(r *hlib.Result, m *hlib.Model, batch []pending) {
 		if p.o.panicked != nil || p.o.ioErr != nil {
 			continue
 		}
-		if p.o.parsed || strings.HasPrefix(p.c.Target, "/") {
+		if !p.o.parsed && p.c.OddWire {
+			// net/http may have refused the request for its request line, Host
+			// or header syntax, which the model of the request target does not
+			// cover; the oracle has seen the case.
+			r.Count("req.odd-wire-form.refused-by-net/http")
+
+			continue
+		}
+		if !p.o.parsed && p.o.status == 200 && p.c.Method == "OPTIONS" && p.c.Target == "*" {
+			// answered by net/http's server itself; the handler is not called
+			continue
+		}
+		if p.o.parsed || simpleTarget(p.c.Method, p.c.Target) {
 			lines = append(lines, w.modelLine(p.c, p.o))
 			idx = append(idx, i)
 		}
@@ -1004,6 +1368,9 @@ func (w *world) flush(r *hlib.Result, m *hlib.Model, batch []pending) {
 		real := realLine(p.o)
 		if strings.HasPrefix(lines[k], "wreq ") {
 			r.Count("model.wire-target-op")
+			if !strings.HasPrefix(p.c.Target, "/") {
+				r.Count("model.wire-target-op.not-origin-form")
+			}
 		} else {
 			r.Count("model.parsed-path-op")
 		}
@@ -1887,8 +2254,58 @@ func fixedCases() (cs []*reqCase) {
 	add("GET", "/linkip/a/b", hdrKV{"Connection", "X-Connecting-IP"})
 	add("GET", "/linkip/a/b", hdrKV{"Connection", "close, x-connecting-ip"}, hdrKV{"X-Connecting-IP", "6.6.6.6"})
 	add("POST", "/ddns/a/b/c", hdrKV{"X-Connecting-IP", "6.6.6.6"}, hdrKV{"Connection", "X-Request-ID , X-Connecting-Ip"})
+	add("GET", "/linkip/a/b", hdrKV{"Connection", "Upgrade"}, hdrKV{"Upgrade", "websocket"})
+	add("POST", "/ddns/a/b/c", hdrKV{"Connection", "keep-alive, upgrade"}, hdrKV{"Upgrade", "h2c"}, hdrKV{"HTTP2-Settings", "AAMAAABkAARAAAAAAAIAAAAA"})
+	add("GET", "/linkip/a/b/status", hdrKV{"Connection", "Upgrade"}, hdrKV{"Upgrade", "a\tb"})
+	add("POST", "/ddns/a%252Fb/c")
+	add("GET", "/linkip/%252e%252e/x")
 	add("DELETE", "/linkip/dev1234/0123456789/status")
 	add("GET", "/linkip/dev1234/0123456789/status/more/stuff")
+
+	return cs
+}
+
+// hdrSweepCases is an exhaustive small scope over the header pipeline: every
+// identity header name (the client-IP header and the seven forwarding headers)
+// x spelling x multiplicity (once; twice with an empty first value; twice with
+// two addresses) x Connection variant (none; naming that header; naming the
+// two headers the proxy sets; a protocol switch) x the four documented
+// requests; and the same names as trailer fields of a chunked request.
+func hdrSweepCases() (cs []*reqCase) {
+	names := append([]string{"X-Connecting-IP"}, "CF-Connecting-IP", "Forwarded", "True-Client-IP", "X-Real-IP", "X-Forwarded-For",
+		"X-Forwarded-Host", "X-Forwarded-Proto")
+	docs := []docReq{{"GET", "/linkip/dev1234/0123456789"}, {"GET", "/linkip/dev1234/0123456789/status"},
+		{"POST", "/ddns/dev1234/0123456789/example.com"}, {"POST", "/linkip/dev1234/0123456789"}}
+	for _, n := range names {
+		for _, spell := range []string{n, strings.ToLower(n), strings.ToUpper(n)} {
+			for mult := 0; mult < 3; mult++ {
+				for conn := 0; conn < 4; conn++ {
+					for _, d := range docs {
+						var hs []hdrKV
+						switch mult {
+						case 0:
+							hs = []hdrKV{{spell, "6.6.6.6"}}
+						case 1:
+							hs = []hdrKV{{spell, ""}, {spell, "6.6.6.6"}}
+						default:
+							hs = []hdrKV{{spell, "6.6.6.6"}, {n, "1.1.1.1"}}
+						}
+						switch conn {
+						case 1:
+							hs = append(hs, hdrKV{"Connection", spell})
+						case 2:
+							hs = append([]hdrKV{{"Connection", "x-connecting-ip, X-Request-ID"}}, hs...)
+						case 3:
+							hs = append(hs, hdrKV{"Connection", "Upgrade, " + n}, hdrKV{"Upgrade", "websocket"})
+						}
+						cs = append(cs, &reqCase{Method: d.method, Target: d.path, Hdrs: hs, Remote: "192.0.2.7:4711", WantIP: "192.0.2.7"})
+					}
+				}
+			}
+			cs = append(cs, &reqCase{Method: "POST", Target: "/ddns/dev1234/0123456789/example.com", Remote: "192.0.2.7:4711",
+				WantIP: "192.0.2.7", Chunked: true, Body: "abc", Trailers: []hdrKV{{spell, "6.6.6.6"}}})
+		}
+	}
 
 	return cs
 }
@@ -2060,9 +2477,11 @@ func hostCampaign(r *hlib.Result, m *hlib.Model, rng *rand.Rand) {
 func main() {
 	o := hlib.ParseFlags()
 	r := hlib.NewResult("C19", o)
-	r.Rule = "raw HTTP/1.1 requests (method x request-target grammar with empty, dot, percent-encoded-dot, encoded-slash and " +
-		"extra segments x forged client-IP/forwarding/Connection headers) are sent in-process (chosen peer address) and over " +
-		"real TCP to the real linkedIPHandler mounted on a bare http.Server in front of a recording backend; the outcome " +
+	r.Rule = "raw HTTP requests (method x request-target grammar with empty, dot, percent-encoded-dot, twice-escaped, non-ASCII, encoded-slash and " +
+		"extra segments, origin and absolute form, address parameters in query and body x forged client-IP/forwarding/Connection/Upgrade headers " +
+		"x Host / HTTP version / chunked body with trailer fields / TLS flag) are sent in-process (chosen peer address) and over " +
+		"real TCP to the real linkedIPHandler mounted on a bare http.Server in front of a recording backend that honours protocol switches " +
+		"(101, then records what arrives through the tunnel); the outcome " +
 		"(404/robots/500/forwarded path + watched headers) is compared with the Lean model and checked by an independent oracle; " +
 		"requests in flight together: (a) deterministic schedules - a request is served completely from inside a hook of another one " +
 		"(ResponseWriter.Header/CloseNotify/WriteHeader, httptrace GetConn/ConnectStart/ConnectDone/GotConn/WroteHeaderField/WroteHeaders/" +
@@ -2075,6 +2494,9 @@ func main() {
 		"it was forwarded, answered 500/robots, or refused under an API prefix; distinct = distinct canonical requests"
 	m := hlib.StartModel(o.Model, "C19")
 	defer m.Close()
+	// The error log of the proxy quotes request paths byte for byte; the
+	// harness output must stay valid UTF-8.
+	aglog.SetOutput(io.Discard)
 	w := newWorld()
 	defer w.backend.Close()
 	w.startService()
@@ -2100,6 +2522,7 @@ func main() {
 		if c := cases[i]; w.stands[c.Stand].svc {
 			c.TCP, c.Remote, c.WantIP, c.BadRem = true, "", "", false
 		}
+		w.wireVariation(rng, cases[i])
 	}
 	w.reqCampaign(o, r, m, cases)
 	nEdit2 := 3000
@@ -2109,6 +2532,8 @@ func main() {
 	ec := editCases(o.Rand("edit"), nEdit2)
 	w.reqCampaign(o, r, m, ec)
 	r.Count("req.edit-distance-1-exhaustive")
+	w.reqCampaign(o, r, m, hdrSweepCases())
+	r.Count("hdr.exhaustive-name-x-spelling-x-multiplicity-x-connection")
 	w.ilvCampaign(o, r, m, o.Rand("ilv"))
 	if len(r.Violations) == 0 {
 		// Real parallelism adds no information once a schedule without any
